@@ -233,7 +233,8 @@ def pVInfo : P VInfo := do
   let prerelease ← pBytes
   let metadata ← pBytes
   let archOverride ← pBytes
-  pure { name, arch, epoch, version, schema, release, prerelease, metadata, archOverride }
+  let platform ← pBytes
+  pure { name, arch, epoch, version, schema, release, prerelease, metadata, archOverride, platform }
 
 def showBytesList (l : List Bytes) : String :=
   s!"{l.length}" ++ String.join (l.map (fun b => " " ++ hex b))
